@@ -785,8 +785,39 @@ fn run_sleeper_case<A: Algebra>(case_seed: u64, judge: Judge, _thorough: bool, r
         };
         live.step(&probe, &mut cx);
         // exactly w operations of one kind; the log keeps a summary only
-        let kind = rng.below(3);
+        let kind = rng.below(4);
         let full_at = rng.usize_below(w);
+        if kind == 3 && n >= 4 {
+            // kind 3: the w point assignments stay in one half of the array while range modifications are still pending in
+            // the other half (attached just before, never queried since); the final probe and the complete probe after it
+            // look at both halves
+            let right = rng.chance(1, 2);
+            let (lo, hi) = if right { (n / 2, n - 1) } else { (0, n / 2 - 1) };
+            if A::has_mod() {
+                for _ in 0..3 {
+                    let a = rng.range_usize(lo, hi);
+                    let b = rng.range_usize(lo, hi);
+                    live.step(&Op::Modify(a.min(b), a.max(b), A::gen_mod(&mut rng, nonneg)), &mut cx);
+                }
+            }
+            let (slo, shi) = if right { (0, n / 2 - 1) } else { (n / 2, n - 1) };
+            let log_len = live.log.len();
+            for _ in 0..w {
+                let j = rng.range_usize(slo, shi);
+                let mut e = A::gen_elem(&mut rng, nonneg);
+                A::at(&mut e, j);
+                live.step(&Op::Set(j, e), &mut cx);
+                live.log.truncate(log_len);
+            }
+            live.log.push(format!("... {} point assignments inside [{}, {}] without a query (modifications pending inside [{}, {}]) ...", w, slo, shi, lo, hi));
+            live.step(&probe, &mut cx);
+            live.step(&Op::Ask(lo, hi), &mut cx);
+            live.final_probe(&mut rng, &mut cx);
+            cx.rep.inc("sleeper_histories_confined_to_one_half");
+            cx.rep.see("nontrivial", mix(&[case_seed, common::hash_str(&A::name()), 0x51ef]));
+            return;
+        }
+        let kind = kind % 3;
         let log_len = live.log.len();
         for i in 0..w {
             let op: Op<A> = if kind == 0 || (kind == 2 && i % 2 == 0) || !A::has_mod() && false {
@@ -995,6 +1026,9 @@ type SumAddZ6 = SumAddZm<6>;
 type SumAddZ2 = SumAddZm<2>;
 type SumAddZ256 = SumAddZm<256>;
 type SumAddZ12 = SumAddZm<12>;
+type XU1 = ProdAlg<TouchUnit, MinI64>;
+type XU2 = ProdAlg<SumI64, TouchUnit>;
+type XU3 = ProdAlg<MaxI64, ProdAlg<TouchUnit, SumCat>>;
 type XT1 = ProdAlg<MinAddI64, TouchCount>;
 type XT2 = ProdAlg<TouchCount, MaxAddI64>;
 type XT3 = ProdAlg<ProdAlg<SumAddI64, TouchCount>, MinAddI64>;
@@ -1036,6 +1070,10 @@ macro_rules! for_each_algebra {
         $mac!(PH, 2);
         $mac!(PN, 1);
         $mac!(TouchCount, 1);
+        $mac!(TouchUnit, 1);
+        $mac!(XU1, 2);
+        $mac!(XU2, 2);
+        $mac!(XU3, 1);
         $mac!(SumAddZ6, 2);
         $mac!(SumAddZ2, 1);
         $mac!(SumAddZ256, 1);
